@@ -3,8 +3,9 @@
    of random start vectors.
    Compiled on every run of the checks against the freshly generated CapacityGen.v (harness/regen.py, unit "capacity"). *)
 From Coq Require Import Lia ZifyBool PrimFloat.
+From Coq Require Floats.
 From DSW Require Import MiniPyC MiniPyCLemmas.
-From DSW Require Capacity.
+From DSW Require Capacity CapacityTermProofs.
 From DSWGen Require Import CapacityGen CapacityRepr.
 Open Scope Z_scope.
 Open Scope string_scope.
@@ -12,7 +13,1115 @@ Local Open Scope Z_scope.
 Local Open Scope list_scope.
 Notation lookup := MiniPyC.lookup.
 
-(* TARGET STATEMENT  (prove it with Qed exactly as stated; add [Print Assumptions] at the end of the file)
+(* STATUS: approximate_capacity_gen (end of file) is PROVED with Qed exactly as stated in the task, no extra hypothesis:
+
+     Theorem approximate_capacity_gen : forall ce fuel acc tolz tol L repeats maxit process verbose stream,
+       externals_ok ce tolz tol L ->
+       acc <> [] -> Forall (fun row => length row = 4%nat) acc ->
+       Forall (Forall (fun x => x < Z.of_nat (length acc))) acc ->
+       1 <= repeats ->
+       (repeats = 1 \/ (Z.to_nat repeats <= length stream)%nat) ->
+       Forall (fun s => length s = length acc) (firstn (Z.to_nat repeats) stream) ->
+       (maxit + 3 <= fuel)%nat ->
+       run_fun ce fuel approximate_capacity_def
+               [varr2 acc; VInt tolz; VInt repeats; VInt (Z.of_nat maxit); VBool process; VBool verbose; v_stream stream]
+       = match Capacity.approximate_capacity acc tol maxit (starts_of (length acc) repeats stream) with
+         | Some r => Ret (capacity_result tol L repeats process r)
+         | None => Fuel
+         end.
+
+   Tested first with Eval vm_compute (tol = 2^-10, L x = 3 x; k = 1 accessors with arcs / without / a row summing to -4 that is not
+   all -1 / entries -2 / a single vertex; repeats 1, 2, 3 with explicit streams incl. negative entries; maxit 0, 1, 2, 5, 50, 500;
+   process and verbose on and off): equal everywhere.
+   Print Assumptions: the primitive float / int63 declarations and FloatAxioms.ltb_spec, FloatAxioms.eqb_spec (used only in
+   ltb_pos_neqb: 0 < y -> y is not 0, needed because x / y is Stuck in MiniPyC when y =? 0).  Nothing else.
+
+   Structure.
+   * The body is cut into its statements (s_early, s_ign, s_init, s_for = for .. obody, s_ret; obody = o1 .. o5, s_while;
+     wbody = w1 .. w7; colbody; inner = i1 .. i7), computed from the generated term and tied back by body_eq, obody_eq, wbody_eq ..
+     (all by reflexivity: a change of the generated term that keeps this skeleton re-checks).
+   * Environments are only spoken about through lookup (the order of the bindings differs between first and later iterations);
+     frame conditions are unch mods en en' (lookup unchanged outside mods); lku / lka resolve lookups through updates and unch.
+   * exec_colbody: one column `eigenvector[available] += last[positions[available]]` = col_step (index_pos, binop_add_maps, store_pos,
+     scatter_used; numpy.where lists distinct in-range positions: nodupb_used_from, used_indices_range, used_from_live);
+     col_loop / exec_w2: the four columns (transpose_rows4) = Capacity.mat_vec (row_sum_fold).
+   * exec_w1 .. exec_w7, exec_i1 .. exec_i7: one lemma per statement of the while body; exec_prefix, step_first (last = None),
+     step_next (one unfolding of Capacity.power_loop: continue, or break with 1 - 2 results); while_run: induction on the model's fuel.
+   * exec_o1 .. exec_o5, outer_tail, outer_step (feeds: the single-start mode leaves the stream alone, otherwise one array is
+     popped per repeat), outer_loop (induction over the starts = Capacity.repeats_loop); exec_early, exec_ign
+     (= Capacity.dead_row positions, store_zero_dead = Capacity.zero_dead), exec_ret; the model never returns None
+     (CapacityTermProofs.repeats_loop_spec), which also gives results <> [] and record <> [] for the final median / record[0]. *)
+
+
+(* ---- tactics ------------------------------------------------------------------------------------------------------------ *)
+Ltac lk := repeat (rewrite lookup_update_same || (rewrite lookup_update_other by discriminate)).
+
+(* ---- the one numerical fact: a positive float is not zero (from the specification axioms of Coq's primitive floats) ---------- *)
+Lemma ltb_pos_neqb (y : float) : PrimFloat.ltb 0%float y = true -> PrimFloat.eqb y 0%float = false.
+Proof.
+  rewrite Floats.FloatAxioms.ltb_spec, Floats.FloatAxioms.eqb_spec.
+  change (Floats.FloatOps.Prim2SF 0%float) with (Floats.SpecFloat.S754_zero false).
+  destruct (Floats.FloatOps.Prim2SF y) as [s|s| |s m e]; cbn; try discriminate; destruct s; intros; try discriminate; reflexivity.
+Qed.
+
+(* ---- the float functions of the interpreter are the model's -------------------------------------------------------------- *)
+Lemma fmaxf_eq a b : fmaxf a b = Capacity.fmax a b.
+Proof. reflexivity. Qed.
+
+Lemma finsertf_eq x l : finsertf x l = Capacity.finsert x l.
+Proof. induction l as [|h t IH]; cbn [finsertf Capacity.finsert]; [reflexivity|rewrite IH; reflexivity]. Qed.
+
+Lemma fsortf_eq l : fsortf l = Capacity.fsort l.
+Proof.
+  unfold fsortf, Capacity.fsort. generalize (@nil float) as a. induction l as [|x t IH]; intro a; cbn [fold_left]; [reflexivity|].
+  rewrite finsertf_eq. apply IH.
+Qed.
+
+Lemma fmedianf_eq l : fmedianf l = Capacity.fmedian l.
+Proof. unfold fmedianf, Capacity.fmedian. rewrite fsortf_eq. reflexivity. Qed.
+
+Lemma fold_fmaxf t h : fold_left fmaxf t h = fold_left Capacity.fmax t h.
+Proof. reflexivity. Qed.
+
+(* ---- lists ---------------------------------------------------------------------------------------------------------------- *)
+Lemma nthZ_nth {A} : forall (l : list A) n d, (n < length l)%nat -> nthZ l n = Some (nth n l d).
+Proof.
+  induction l as [|x t IH]; intros n d Hn; cbn [length] in Hn; [lia|].
+  destruct n as [|n]; cbn [nthZ nth]; [reflexivity|]. apply IH. lia.
+Qed.
+
+Lemma py_get_ok {A} (l : list A) i d : 0 <= i < Z.of_nat (length l) -> py_get l i = Ok (nth (Z.to_nat i) l d).
+Proof.
+  intros Hi. unfold py_get. cbv zeta.
+  destruct (i <? 0) eqn:E1; [lia|].
+  destruct (Z.of_nat (length l) <=? i) eqn:E2; [lia|].
+  rewrite ?E1. cbn [orb]. rewrite (nthZ_nth l _ d) by lia. reflexivity.
+Qed.
+
+Lemma py_get_last {A} (l : list A) x : py_get (l ++ [x]) (-1) = Ok x.
+Proof.
+  unfold py_get. cbv zeta. rewrite app_length. cbn [length]. change (-1 <? 0) with true. cbv iota.
+  destruct ((-1 + Z.of_nat (length l + 1) <? 0) || (Z.of_nat (length l + 1) <=? -1 + Z.of_nat (length l + 1))) eqn:E; [lia|].
+  replace (Z.to_nat (-1 + Z.of_nat (length l + 1))) with (length l) by lia.
+  rewrite (nthZ_nth _ _ x) by (rewrite app_length; cbn [length]; lia).
+  rewrite app_nth2, Nat.sub_diag by lia. reflexivity.
+Qed.
+
+Lemma set_nth_mid {A} (pre : list A) x y post : set_nth (pre ++ x :: post) (length pre) y = pre ++ y :: post.
+Proof. induction pre as [|p pre IH]; cbn [app length set_nth]; [reflexivity|rewrite IH; reflexivity]. Qed.
+
+Lemma set_nth_length {A} : forall (l : list A) i x, length (set_nth l i x) = length l.
+Proof. induction l as [|y t IH]; intros [|i] x; cbn [set_nth length]; try reflexivity. rewrite IH. reflexivity. Qed.
+
+Lemma map_res_map {A B C} (f : B -> res C) (h : A -> B) (k : A -> C) : forall l,
+  (forall x, In x l -> f (h x) = Ret (k x)) -> map_res f (map h l) = Ret (map k l).
+Proof.
+  induction l as [|x t IH]; intros H; [reflexivity|].
+  cbn [map map_res]. rewrite H by (left; reflexivity). cbn [rbind]. rewrite IH; [reflexivity|].
+  intros y Hy. apply H. right. exact Hy.
+Qed.
+
+Lemma index_last l x : index_val (VList (l ++ [x])) (VInt (-1)) = Ret x.
+Proof. unfold index_val. rewrite py_get_last. reflexivity. Qed.
+
+Lemma store_last l x y : store_val (VList (l ++ [x])) (VInt (-1)) y = Ret (VList (l ++ [y])).
+Proof.
+  unfold store_val. cbv zeta. rewrite app_length. cbn [length]. change (-1 <? 0) with true. cbv iota.
+  destruct ((-1 + Z.of_nat (length l + 1) <? 0) || (Z.of_nat (length l + 1) <=? -1 + Z.of_nat (length l + 1))) eqn:E; [lia|].
+  replace (Z.to_nat (-1 + Z.of_nat (length l + 1))) with (length l) by lia.
+  rewrite set_nth_mid. reflexivity.
+Qed.
+
+(* ---- float arrays ----------------------------------------------------------------------------------------------------------- *)
+Lemma floats_of_map l : floats_of (map VFloat l) = Ret l.
+Proof.
+  unfold floats_of. rewrite (map_res_map _ VFloat (fun x => x)) by (intros; reflexivity). rewrite map_id. reflexivity.
+Qed.
+
+Lemma forallb_isfloat {A} (g : A -> float) l :
+  forallb (fun x => match x with VFloat _ => true | _ => false end) (map (fun a => VFloat (g a)) l) = true.
+Proof. induction l as [|x t IH]; [reflexivity|]. cbn [map forallb]. exact IH. Qed.
+
+Lemma forallb_isfloat' l : forallb (fun x => match x with VFloat _ => true | _ => false end) (map VFloat l) = true.
+Proof. apply (forallb_isfloat (fun x => x)). Qed.
+
+
+Lemma index_tuple l idx : index_val (VArr l) (VTuple [VArr idx]) = index_val (VArr l) (VArr idx).
+Proof. reflexivity. Qed.
+
+Lemma store_tuple l idx v : store_val (VArr l) (VTuple [VArr idx]) v = store_val (VArr l) (VArr idx) v.
+Proof. reflexivity. Qed.
+
+(* a[positions]: the elements at the positions (an empty index array selects nothing) *)
+Lemma index_pos {A} (f : A -> val) (d : A) l idx :
+  Forall (fun j => 0 <= j < Z.of_nat (length l)) idx ->
+  index_val (VArr (map f l)) (VArr (map VInt idx)) = Ret (VArr (map (fun j => f (nth (Z.to_nat j) l d)) idx)).
+Proof.
+  intro H. destruct idx as [|j0 t]; [reflexivity|].
+  unfold index_val. cbn [map].
+  change (VInt j0 :: map VInt t) with (map VInt (j0 :: t)).
+  rewrite (map_res_map _ VInt (fun j => f (nth (Z.to_nat j) l d))); [reflexivity|].
+  intros j Hj. rewrite Forall_forall in H. specialize (H j Hj).
+  rewrite (py_get_ok _ _ (f d)) by (rewrite map_length; exact H). rewrite map_nth. reflexivity.
+Qed.
+
+Lemma binop_add_maps {A} (f g : A -> float) idx :
+  binop_vals Add (VArr (map (fun j => VFloat (f j)) idx)) (VArr (map (fun j => VFloat (g j)) idx))
+  = Ret (VArr (map (fun j => VFloat (f j + g j)%float) idx)).
+Proof.
+  unfold binop_vals.
+  assert (E : zip_res (fun x y => match x, y with
+                                   | VInt _, VInt _ | VFloat _, VFloat _ => binop_scalar Add x y
+                                   | _, _ => Stuck end)
+                (map (fun j => VFloat (f j)) idx) (map (fun j => VFloat (g j)) idx)
+              = Ret (map (fun j => VFloat (f j + g j)%float) idx)).
+  { induction idx as [|j t IH]; [reflexivity|]. cbn [map zip_res]. rewrite IH. reflexivity. }
+  rewrite E. reflexivity.
+Qed.
+
+Lemma map_res_ints idx : map_res (fun x => match x with VInt j => Ret j | _ => Stuck end) (map VInt idx) = Ret idx.
+Proof. rewrite (map_res_map _ VInt (fun x => x)) by (intros; reflexivity). rewrite map_id. reflexivity. Qed.
+
+(* a[positions] = values on a float array *)
+Lemma store_pos (h : Z -> float) l idx :
+  forallb (fun x => match x with VFloat _ => true | _ => false end) l = true ->
+  nodupb idx = true ->
+  Forall (fun j => 0 <= j < Z.of_nat (length l)) idx ->
+  store_val (VArr l) (VArr (map VInt idx)) (VArr (map (fun j => VFloat (h j)) idx))
+  = Ret (VArr (fold_left (fun l j => set_nth l (Z.to_nat j) (VFloat (h j))) idx l)).
+Proof.
+  intros Hl Hn Hr. unfold store_val. rewrite Hl, forallb_isfloat, !map_length, Nat.eqb_refl. cbn [andb].
+  rewrite map_res_ints. cbn [rbind]. rewrite Hn. clear Hl Hn.
+  revert l Hr. induction idx as [|j t IH]; intros l Hr; [reflexivity|].
+  cbn [map fold_left]. inversion Hr as [|? ? Hj Ht]; subst.
+  destruct ((j <? 0) || (Z.of_nat (length l) <=? j)) eqn:E; [lia|].
+  apply IH. rewrite set_nth_length. exact Ht.
+Qed.
+
+(* numpy.where lists distinct positions, all inside the array *)
+Lemma used_from_bounds : forall row k j, In j (used_from row k) -> k <= j < k + Z.of_nat (length row).
+Proof.
+  induction row as [|x t IH]; intros k j H; [destruct H|]. cbn [used_from length] in *.
+  destruct (0 <=? x).
+  - destruct H as [<-|H]; [lia|]. apply IH in H. lia.
+  - apply IH in H. lia.
+Qed.
+
+Lemma memZ_In x l : memZ x l = true -> In x l.
+Proof.
+  induction l as [|y t IH]; cbn [memZ]; [discriminate|]. intro H. apply orb_prop in H. destruct H as [H|H].
+  - left. lia.
+  - right. apply IH, H.
+Qed.
+
+Lemma nodupb_used_from : forall row k, nodupb (used_from row k) = true.
+Proof.
+  induction row as [|x t IH]; intro k; [reflexivity|]. cbn [used_from]. destruct (0 <=? x); [|apply IH].
+  cbn [nodupb]. rewrite IH, andb_true_r. destruct (memZ k (used_from t (k + 1))) eqn:E; [|reflexivity].
+  apply memZ_In, used_from_bounds in E. lia.
+Qed.
+
+Lemma used_indices_range row : Forall (fun j => 0 <= j < Z.of_nat (length row)) (used_indices row).
+Proof. apply Forall_forall. intros j H. apply used_from_bounds in H. lia. Qed.
+
+(* one column of the matrix-vector product: eigenvector[live] += last[entry[live]] *)
+Definition col_step (last ev : list float) (col : list Z) : list float :=
+  map (fun p => if 0 <=? snd p then (fst p + nth (Z.to_nat (snd p)) last 0)%float else fst p) (combine ev col).
+
+Lemma scatter_used (last : list float) (h : Z -> float) : forall col ev pre,
+  length ev = length col ->
+  (forall i, (i < length col)%nat ->
+     h (Z.of_nat (length pre + i)) = (nth i ev 0 + nth (Z.to_nat (nth i col 0%Z)) last 0)%float) ->
+  fold_left (fun l j => set_nth l (Z.to_nat j) (VFloat (h j))) (used_from col (Z.of_nat (length pre))) (pre ++ map VFloat ev)
+  = pre ++ map VFloat (col_step last ev col).
+Proof.
+  induction col as [|x col IH]; intros ev pre Hlen Hh.
+  - destruct ev; [reflexivity|discriminate].
+  - destruct ev as [|e ev]; [discriminate|]. cbn [length] in Hlen.
+    unfold col_step. cbn [used_from combine map snd fst].
+    assert (IH' : forall v, fold_left (fun l j => set_nth l (Z.to_nat j) (VFloat (h j))) (used_from col (Z.of_nat (length pre) + 1))
+                   ((pre ++ [v]) ++ map VFloat ev) = (pre ++ [v]) ++ map VFloat (col_step last ev col)).
+    { intro v. replace (Z.of_nat (length pre) + 1) with (Z.of_nat (length (pre ++ [v]))) by (rewrite app_length; cbn [length]; lia).
+      apply IH; [lia|]. intros i Hi. rewrite app_length. cbn [length].
+      replace (length pre + 1 + i)%nat with (length pre + S i)%nat by lia. rewrite Hh by (cbn [length]; lia). reflexivity. }
+    destruct (0 <=? x) eqn:E.
+    + cbn [fold_left]. rewrite Nat2Z.id, set_nth_mid.
+      specialize (IH' (VFloat (h (Z.of_nat (length pre))))). rewrite <- !app_assoc in IH'. cbn [app] in IH'. rewrite IH'.
+      replace (Z.of_nat (length pre)) with (Z.of_nat (length pre + 0)) by (f_equal; lia). rewrite Hh by (cbn [length]; lia).
+      reflexivity.
+    + specialize (IH' (VFloat e)). rewrite <- !app_assoc in IH'. cbn [app] in IH'. exact IH'.
+Qed.
+
+Lemma col_step_map {A} (last : list float) (g : A -> float) (c : A -> Z) (acc : list A) :
+  col_step last (map g acc) (map c acc)
+  = map (fun r => if 0 <=? c r then (g r + nth (Z.to_nat (c r)) last 0)%float else g r) acc.
+Proof. unfold col_step. induction acc as [|r t IH]; [reflexivity|]. cbn [map combine fst snd]. rewrite IH. reflexivity. Qed.
+
+Lemma col_step_length last ev col : length ev = length col -> length (col_step last ev col) = length ev.
+Proof. intro H. unfold col_step. rewrite map_length, combine_length. lia. Qed.
+
+Lemma used_from_live : forall row k j, In j (used_from row k) -> 0 <= nth (Z.to_nat (j - k)) row 0.
+Proof.
+  induction row as [|x t IH]; intros k j H; [destruct H|]. cbn [used_from] in H.
+  assert (T : In j (used_from t (k + 1)) -> 0 <= nth (Z.to_nat (j - k)) (x :: t) 0).
+  { intro H'. pose proof (used_from_bounds _ _ _ H') as B. apply IH in H'.
+    replace (Z.to_nat (j - k)) with (S (Z.to_nat (j - (k + 1)))) by lia. exact H'. }
+  destruct (0 <=? x) eqn:E; [|exact (T H)].
+  destruct H as [<-|H]; [|exact (T H)]. rewrite Z.sub_diag. cbn [Z.to_nat nth]. lia.
+Qed.
+
+(* ---- NumPy primitives -------------------------------------------------------------------------------------------------------- *)
+Lemma cmp_top_varr o row z : cmp_top o (varr row) (VInt z) = cmp_vals o (varr row) (VInt z).
+Proof. destruct row as [|x t]; reflexivity. Qed.
+
+Lemma cmp_ge0_varr row : cmp_vals CGe (varr row) (VInt 0) = Ret (VArr (map (fun x => VBool (0 <=? x)) row)).
+Proof.
+  unfold cmp_vals, varr.
+  rewrite (map_res_map _ VInt (fun x => VBool (0 <=? x))); [reflexivity|]. intros x _. reflexivity.
+Qed.
+
+Lemma where_bools {A} (g : A -> bool) l :
+  builtin1_val BNpWhere (VArr (map (fun x => VBool (g x)) l)) =
+  Ret (VTuple [varr (used_indices (map (fun x => if g x then 0 else -1) l))]).
+Proof.
+  unfold builtin1_val. destruct l as [|a l]; [reflexivity|]. cbn [map].
+  change (VBool (g a) :: map (fun x => VBool (g x)) l) with (map (fun x => VBool (g x)) (a :: l)).
+  rewrite (map_res_map _ (fun x => VBool (g x)) g) by (intros; reflexivity). cbn [rbind].
+  rewrite map_map. reflexivity.
+Qed.
+
+Lemma used_from_flag : forall row j, used_from (map (fun x => if 0 <=? x then 0 else -1) row) j = used_from row j.
+Proof.
+  induction row as [|x t IH]; intros j; [reflexivity|]. cbn [map used_from]. rewrite IH.
+  destruct (0 <=? x); reflexivity.
+Qed.
+
+Lemma where_ge0 row : builtin1_val BNpWhere (VArr (map (fun x => VBool (0 <=? x)) row)) = Ret (VTuple [varr (used_indices row)]).
+Proof. rewrite where_bools. unfold used_indices. rewrite used_from_flag. reflexivity. Qed.
+
+(* ---- the statements of the generated body -------------------------------------------------------------------------------------- *)
+Definition seq1 (s : stmt) : stmt := match s with SSeq a _ => a | _ => SSkip end.
+Definition seq2 (s : stmt) : stmt := match s with SSeq _ b => b | _ => SSkip end.
+Definition for_body (s : stmt) : stmt := match s with SFor _ _ b => b | _ => SSkip end.
+Definition whileb_body (s : stmt) : stmt := match s with SWhileB _ b => b | _ => SSkip end.
+Definition if_then (s : stmt) : stmt := match s with SIf _ a _ => a | _ => SSkip end.
+
+Definition s_early := Eval cbv in seq1 (body approximate_capacity_def).
+Definition s_ign := Eval cbv in seq1 (seq2 (body approximate_capacity_def)).
+Definition s_init := Eval cbv in seq1 (seq2 (seq2 (body approximate_capacity_def))).
+Definition s_for := Eval cbv in seq1 (seq2 (seq2 (seq2 (body approximate_capacity_def)))).
+Definition s_ret := Eval cbv in seq2 (seq2 (seq2 (seq2 (body approximate_capacity_def)))).
+Definition obody := Eval cbv in for_body s_for.
+Definition o1 := Eval cbv in seq1 obody.                                  (* if verbose and repeats > 1: print *)
+Definition o2 := Eval cbv in seq1 (seq2 obody).                           (* record.append([]) *)
+Definition o3 := Eval cbv in seq1 (seq2 (seq2 obody)).                    (* the start vector *)
+Definition o4 := Eval cbv in seq1 (seq2 (seq2 (seq2 obody))).             (* last_eigenvector[ignore_positions] = 0.0 *)
+Definition o5 := Eval cbv in seq1 (seq2 (seq2 (seq2 (seq2 obody)))).      (* monitor, queue, last_eigenvalue, current = .. *)
+Definition s_while := Eval cbv in seq2 (seq2 (seq2 (seq2 (seq2 obody)))).
+Definition wbody := Eval cbv in whileb_body s_while.
+Definition w1 := Eval cbv in seq1 wbody.                                  (* eigenvector = zeros_like(last_eigenvector) *)
+Definition w2 := Eval cbv in seq1 (seq2 wbody).                           (* the column loop *)
+Definition w3 := Eval cbv in seq1 (seq2 (seq2 wbody)).                    (* eigenvalue = max(eigenvector) *)
+Definition w4 := Eval cbv in seq1 (seq2 (seq2 (seq2 wbody))).             (* normalisation *)
+Definition w5 := Eval cbv in seq1 (seq2 (seq2 (seq2 (seq2 wbody)))).      (* record[-1].append(..) *)
+Definition w6 := Eval cbv in seq1 (seq2 (seq2 (seq2 (seq2 (seq2 wbody))))).   (* if last_eigenvalue is not None: .. *)
+Definition w7 := Eval cbv in seq2 (seq2 (seq2 (seq2 (seq2 (seq2 wbody))))).   (* last_eigenvalue, last_eigenvector, current = .. *)
+Definition colbody := Eval cbv in for_body w2.
+Definition c1 := Eval cbv in seq1 colbody.
+Definition c2 := Eval cbv in seq2 colbody.
+Definition inner := Eval cbv in if_then w6.
+Definition i1 := Eval cbv in seq1 inner.                                  (* relative_error *)
+Definition i2 := Eval cbv in seq1 (seq2 inner).                           (* queue.append(eigenvalue) *)
+Definition i3 := Eval cbv in seq1 (seq2 (seq2 inner)).                    (* if verbose ..: monitor *)
+Definition i4 := Eval cbv in seq1 (seq2 (seq2 (seq2 inner))).             (* is_finished = False *)
+Definition i5 := Eval cbv in seq1 (seq2 (seq2 (seq2 (seq2 inner)))).      (* tolerance test *)
+Definition i6 := Eval cbv in seq1 (seq2 (seq2 (seq2 (seq2 (seq2 inner))))).   (* median fallback *)
+Definition i7 := Eval cbv in seq2 (seq2 (seq2 (seq2 (seq2 (seq2 inner))))).   (* if is_finished: .. break *)
+Definition lg_expr := Eval cbv in match w5 with SAppendAt _ _ e => e | _ => ENone end.
+
+Lemma body_eq : body approximate_capacity_def = SSeq s_early (SSeq s_ign (SSeq s_init (SSeq s_for s_ret))).
+Proof. reflexivity. Qed.
+Lemma s_for_eq : s_for = SFor (TVar "repeat") (EB1 BRange (EVar "repeats")) obody.
+Proof. reflexivity. Qed.
+Lemma obody_eq : obody = SSeq o1 (SSeq o2 (SSeq o3 (SSeq o4 (SSeq o5 s_while)))).
+Proof. reflexivity. Qed.
+Lemma s_while_eq : s_while = SWhileB (EBoolLit true) wbody.
+Proof. reflexivity. Qed.
+Lemma wbody_eq : wbody = SSeq w1 (SSeq w2 (SSeq w3 (SSeq w4 (SSeq w5 (SSeq w6 w7))))).
+Proof. reflexivity. Qed.
+Lemma w2_eq : w2 = SFor (TVar "positions") (EB1 BTranspose (EVar "accessor")) colbody.
+Proof. reflexivity. Qed.
+Lemma colbody_eq : colbody = SSeq c1 c2.
+Proof. reflexivity. Qed.
+Lemma w6_eq : w6 = SIf (ENot (EB1 BIsNone (EVar "last_eigenvalue"))) inner SSkip.
+Proof. reflexivity. Qed.
+Lemma inner_eq : inner = SSeq i1 (SSeq i2 (SSeq i3 (SSeq i4 (SSeq i5 (SSeq i6 i7))))).
+Proof. reflexivity. Qed.
+
+Lemma nth_vint j r : (j < length r)%nat -> nth j (map VInt r) VNone = VInt (nth j r 0).
+Proof. intro H. rewrite (nth_indep _ VNone (VInt 0)) by (rewrite map_length; exact H). apply map_nth. Qed.
+
+Lemma transpose_rows4 (a : list (list Z)) : a <> [] -> Forall (fun row => length row = 4%nat) a ->
+  builtin1_val BTranspose (varr2 a) = Ret (VArr (map (fun j => varr (map (fun r => nth j r 0) a)) [0; 1; 2; 3]%nat)).
+Proof.
+  intros Hne Hrows. rewrite Forall_forall in Hrows.
+  assert (E1 : map_res (fun r => match r with VArr l => Ret l | _ => Stuck end) (map varr a) = Ret (map (map VInt) a)).
+  { apply map_res_map. intros; reflexivity. }
+  assert (E4 : forall j, (j < 4)%nat -> VArr (map (fun r => nth j r VNone) (map (map VInt) a)) = varr (map (fun r => nth j r 0) a)).
+  { intros j Hj. unfold varr. rewrite !map_map. f_equal. apply map_ext_in. intros r Hr. apply nth_vint.
+    rewrite (Hrows r Hr). exact Hj. }
+  destruct a as [|r0 t]; [contradiction|].
+  assert (E2 : forallb (fun r => Nat.eqb (length r) (length (map VInt r0))) (map (map VInt) (r0 :: t)) = true).
+  { apply forallb_forall. intros x Hx. apply in_map_iff in Hx. destruct Hx as [r [<- Hr]]. rewrite !map_length.
+    rewrite (Hrows r Hr), (Hrows r0) by (left; reflexivity). reflexivity. }
+  assert (E3 : length (map VInt r0) = 4%nat).
+  { rewrite map_length. apply Hrows. left; reflexivity. }
+  set (R := map (fun j => varr (map (fun r => nth j r 0) (r0 :: t))) [0; 1; 2; 3]%nat).
+  unfold varr2. cbn [map]. unfold varr at 1. unfold builtin1_val.
+  change (VArr (map VInt r0) :: map varr t) with (map varr (r0 :: t)).
+  rewrite E1. cbn [rbind]. rewrite E2, E3. change (List.seq 0 4) with [0; 1; 2; 3]%nat. subst R. do 2 f_equal. apply map_ext_in. intros j Hj. apply E4.
+  cbn [In] in Hj. lia.
+Qed.
+
+Lemma cmp_gt_ff a b : cmp_top CGt (VFloat a) (VFloat b) = Ret (VBool (PrimFloat.ltb b a)).
+Proof. reflexivity. Qed.
+Lemma cmp_lt_ff a b : cmp_top CLt (VFloat a) (VFloat b) = Ret (VBool (PrimFloat.ltb a b)).
+Proof. reflexivity. Qed.
+Lemma cmp_gt_f0 a : cmp_top CGt (VFloat a) (VInt 0) = Ret (VBool (PrimFloat.ltb 0%float a)).
+Proof. reflexivity. Qed.
+Lemma cmp_gt_ii a b : cmp_top CGt (VInt a) (VInt b) = Ret (VBool (b <? a)).
+Proof. reflexivity. Qed.
+Lemma cmp_lt_ii a b : cmp_top CLt (VInt a) (VInt b) = Ret (VBool (a <? b)).
+Proof. reflexivity. Qed.
+
+Lemma div_ff a b : PrimFloat.ltb 0%float b = true -> binop_vals TrueDiv (VFloat a) (VFloat b) = Ret (VFloat (a / b)%float).
+Proof. intro H. unfold binop_vals, binop_scalar. cbn [has_float as_float rbind]. rewrite (ltb_pos_neqb b H). reflexivity. Qed.
+
+Lemma div_arr l b : PrimFloat.ltb 0%float b = true ->
+  binop_vals TrueDiv (vfloats l) (VFloat b) = Ret (vfloats (map (fun a => (a / b)%float) l)).
+Proof.
+  intro H. unfold binop_vals, vfloats.
+  rewrite (map_res_map _ VFloat (fun a => VFloat (a / b)%float)).
+  - rewrite map_map. reflexivity.
+  - intros x _. unfold binop_scalar. cbn [has_float as_float rbind]. rewrite (ltb_pos_neqb b H). reflexivity.
+Qed.
+
+Lemma mul_arr l b : binop_vals Mul (vfloats l) (VFloat b) = Ret (vfloats (map (fun a => (a * b)%float) l)).
+Proof.
+  unfold binop_vals, vfloats.
+  rewrite (map_res_map _ VFloat (fun a => VFloat (a * b)%float)).
+  - rewrite map_map. reflexivity.
+  - intros x _. reflexivity.
+Qed.
+
+Lemma map_const_len {A B C} (c : C) (l1 : list A) (l2 : list B) :
+  length l1 = length l2 -> map (fun _ => c) l1 = map (fun _ => c) l2.
+Proof.
+  revert l2. induction l1 as [|x t IH]; intros [|y l2] H; try discriminate; [reflexivity|].
+  cbn [map]. f_equal. apply IH. cbn [length] in H. lia.
+Qed.
+
+Lemma zeros_like_floats (x : list float) : x <> [] ->
+  builtin1_val BZerosLike (vfloats x) = Ret (vfloats (map (fun _ => 0%float) x)).
+Proof.
+  intro H. destruct x as [|h t]; [contradiction|]. unfold vfloats, builtin1_val. cbn [map].
+  change (VFloat h :: map VFloat t) with (map VFloat (h :: t)). rewrite floats_of_map. cbn [rbind]. rewrite map_map. reflexivity.
+Qed.
+
+Lemma np_max_floats (x : list float) : x <> [] -> builtin1_val BNpMax (vfloats x) = Ret (VFloat (Capacity.vec_max x)).
+Proof.
+  intro H. destruct x as [|h t]; [contradiction|]. unfold vfloats, builtin1_val. cbn [map].
+  change (VFloat h :: map VFloat t) with (map VFloat (h :: t)). rewrite floats_of_map. reflexivity.
+Qed.
+
+Lemma blen_vflist (q : list float) : builtin1_val BLen (vflist q) = Ret (VInt (Z.of_nat (length q))).
+Proof. unfold vflist, builtin1_val. rewrite map_length. reflexivity. Qed.
+
+Lemma median_flist (q : list float) : q <> [] -> builtin1_val BMedian (vflist q) = Ret (VFloat (Capacity.fmedian q)).
+Proof.
+  intro H. unfold vflist, builtin1_val. rewrite floats_of_map. cbn [rbind]. rewrite fmedianf_eq.
+  destruct q; [contradiction|reflexivity].
+Qed.
+
+(* a[positions] = 0.0 on a float array, positions from numpy.where *)
+Lemma store_const (z : float) l idx :
+  forallb (fun x => match x with VFloat _ => true | _ => false end) l = true ->
+  Forall (fun j => 0 <= j < Z.of_nat (length l)) idx ->
+  store_val (VArr l) (VArr (map VInt idx)) (VFloat z)
+  = Ret (VArr (fold_left (fun l j => set_nth l (Z.to_nat j) (VFloat z)) idx l)).
+Proof.
+  intros Hl Hr. unfold store_val. rewrite Hl. clear Hl.
+  revert l Hr. induction idx as [|j t IH]; intros l Hr; [reflexivity|].
+  cbn [map fold_left]. inversion Hr as [|? ? Hj Ht]; subst.
+  destruct (j <? 0) eqn:E0; [lia|].
+  destruct ((j <? 0) || (Z.of_nat (length l) <=? j)) eqn:E; [lia|].
+  apply IH. rewrite set_nth_length. exact Ht.
+Qed.
+
+Lemma scatter_const (z : float) {A} (d : A -> bool) : forall (a : list A) (ev : list float) pre,
+  length ev = length a ->
+  fold_left (fun l j => set_nth l (Z.to_nat j) (VFloat z)) (used_from (map (fun r => if d r then 0 else -1) a) (Z.of_nat (length pre)))
+            (pre ++ map VFloat ev)
+  = pre ++ map VFloat (map (fun rv => if d (fst rv) then z else snd rv) (combine a ev)).
+Proof.
+  induction a as [|r a IH]; intros ev pre Hlen.
+  - destruct ev; [reflexivity|discriminate].
+  - destruct ev as [|e ev]; [discriminate|]. cbn [length] in Hlen. cbn [map used_from combine fst snd].
+    assert (IH' : forall v, fold_left (fun l j => set_nth l (Z.to_nat j) (VFloat z))
+                   (used_from (map (fun r => if d r then 0 else -1) a) (Z.of_nat (length pre) + 1))
+                   ((pre ++ [v]) ++ map VFloat ev)
+                 = (pre ++ [v]) ++ map VFloat (map (fun rv => if d (fst rv) then z else snd rv) (combine a ev))).
+    { intro v. replace (Z.of_nat (length pre) + 1) with (Z.of_nat (length (pre ++ [v]))) by (rewrite app_length; cbn [length]; lia).
+      apply IH. lia. }
+    destruct (d r).
+    + change (0 <=? 0) with true. cbv iota. cbn [fold_left]. rewrite Nat2Z.id, set_nth_mid.
+      specialize (IH' (VFloat z)). rewrite <- !app_assoc in IH'. exact IH'.
+    + change (0 <=? -1) with false. cbv iota.
+      specialize (IH' (VFloat e)). rewrite <- !app_assoc in IH'. exact IH'.
+Qed.
+
+Lemma used_flags_range {A} (d : A -> bool) (a : list A) :
+  Forall (fun j => 0 <= j < Z.of_nat (length a)) (used_indices (map (fun r => if d r then 0 else -1) a)).
+Proof. rewrite <- (map_length (fun r => if d r then 0 else -1) a). apply used_indices_range. Qed.
+
+Lemma store_zero_dead (acc : list (list Z)) (s : list float) : length s = length acc ->
+  store_val (vfloats s) (varr (used_indices (map (fun r => if Capacity.dead_row r then 0 else -1) acc))) (VFloat 0%float)
+  = Ret (vfloats (Capacity.zero_dead acc s)).
+Proof.
+  intro H. unfold vfloats, varr. rewrite store_const.
+  - unfold used_indices. pose proof (scatter_const 0%float Capacity.dead_row acc s [] H) as E.
+    cbn [length app] in E. change (Z.of_nat 0) with 0 in E. rewrite E. reflexivity.
+  - apply forallb_isfloat'.
+  - rewrite map_length, H. apply used_flags_range.
+Qed.
+
+(* sum(accessor, axis=1) == -4 *)
+Lemma sum_axis1 (acc : list (list Z)) : builtin1_val BNpSumAxis1 (varr2 acc) = Ret (varr (map sumZ acc)).
+Proof.
+  unfold builtin1_val, varr2.
+  rewrite (map_res_map _ varr (fun r => VInt (sumZ r))).
+  - cbn [rbind]. unfold varr. rewrite map_map. reflexivity.
+  - intros r _. unfold varr. rewrite (map_res_map _ VInt (fun x => x)) by (intros; reflexivity). rewrite map_id. reflexivity.
+Qed.
+
+Lemma cmp_eq_varr l z : cmp_vals CEq (varr l) (VInt z) = Ret (VArr (map (fun x => VBool (x =? z)) l)).
+Proof.
+  unfold cmp_vals, varr. rewrite (map_res_map _ VInt (fun x => VBool (x =? z))); [reflexivity|]. intros x _. reflexivity.
+Qed.
+
+(* numpy.all(accessor == -1) *)
+Lemma all_true_rows (acc : list (list Z)) :
+  all_true (VArr (map (fun r => VArr (map (fun x => VBool (x =? -1)) r)) acc)) = Ret (Capacity.all_minus_one acc).
+Proof.
+  unfold Capacity.all_minus_one.
+  assert (R : forall r, all_true (VArr (map (fun x => VBool (x =? -1)) r)) = Ret (forallb (fun e => e =? -1) r)).
+  { induction r as [|x t IH]; [reflexivity|]. cbn [map forallb]. cbn [all_true] in IH |- *. rewrite IH. reflexivity. }
+  induction acc as [|r t IH]; [reflexivity|].
+  cbn [map forallb]. change (all_true (VArr (?a :: ?l))) with (b <~ all_true a ;; bs <~ all_true (VArr l) ;; Ret (b && bs)).
+  rewrite R, IH. reflexivity.
+Qed.
+
+Lemma all_eq_m1 (acc : list (list Z)) : acc <> [] ->
+  x <~ cmp_top CEq (varr2 acc) (VInt (-1)) ;; builtin1_val BNpAllAny x = Ret (VBool (Capacity.all_minus_one acc)).
+Proof.
+  intro H. destruct acc as [|r0 t]; [contradiction|]. unfold varr2. cbn [map]. unfold varr at 1. unfold cmp_top.
+  change (VArr (map VInt r0) :: map varr t) with (map varr (r0 :: t)).
+  rewrite (map_res_map _ varr (fun r => VArr (map (fun x => VBool (x =? -1)) r))).
+  - cbn [rbind]. unfold builtin1_val. rewrite all_true_rows. reflexivity.
+  - intros r _. fold (varr r). rewrite cmp_eq_varr. reflexivity.
+Qed.
+
+Lemma map_repeat' {A B} (f : A -> B) x n : map f (repeat x n) = repeat (f x) n.
+Proof. induction n as [|n IH]; [reflexivity|]. cbn [repeat map]. rewrite IH. reflexivity. Qed.
+
+Lemma map_res_const {A} (c : val) (f : A -> res val) : forall l, (forall x, f x = Ret c) -> map_res f l = Ret (repeat c (length l)).
+Proof. intros l H. induction l as [|x t IH]; [reflexivity|]. cbn [map_res length repeat]. rewrite H, IH. reflexivity. Qed.
+
+Lemma zrange_up_length n a st : length (zrange_up n a st) = n.
+Proof. revert a. induction n as [|n IH]; intro a; [reflexivity|]. cbn [zrange_up length]. rewrite IH. reflexivity. Qed.
+
+Lemma range_items r : 0 <= r -> builtin1_val BRange (VInt r) = Ret (VList (zrange_up (Z.to_nat r) 0 1)).
+Proof.
+  intro H. unfold builtin1_val, range3. change (1 =? 0) with false. change (0 <? 1) with true. cbv iota.
+  replace ((r - 0 + 1 - 1) / 1) with r by (rewrite Z.div_1_r; lia). reflexivity.
+Qed.
+
+Lemma cmp_eq_ii a b : cmp_top CEq (VInt a) (VInt b) = Ret (VBool (a =? b)).
+Proof. reflexivity. Qed.
+
+Lemma len_row0 (a : list (list Z)) : a <> [] -> Forall (fun row => length row = 4%nat) a ->
+  x <~ index_val (varr2 a) (VInt 0) ;; builtin1_val BLen x = Ret (VInt 4).
+Proof.
+  intros Hne Hr. destruct a as [|r0 t]; [contradiction|]. inversion Hr as [|? ? H0 _]; subst.
+  unfold varr2, index_val. cbn [map]. rewrite (py_get_ok _ 0 VNone) by (cbn [length]; lia). cbn [Z.to_nat nth rbind].
+  unfold varr, builtin1_val. rewrite map_length, H0. reflexivity.
+Qed.
+
+Lemma index_tuple1 x : index_val (VTuple [x]) (VInt 0) = Ret x.
+Proof. reflexivity. Qed.
+
+Lemma median_fmedianf (l : list float) : l <> [] -> builtin1_val BMedian (vflist l) = Ret (VFloat (fmedianf l)).
+Proof. intro H. unfold vflist, builtin1_val. rewrite floats_of_map. cbn [rbind]. destruct l; [contradiction|reflexivity]. Qed.
+
+Lemma index_head x l : index_val (VList (x :: l)) (VInt 0) = Ret x.
+Proof. unfold index_val. rewrite (py_get_ok _ 0 VNone) by (cbn [length]; lia). reflexivity. Qed.
+
+(* ---- frame conditions ---------------------------------------------------------------------------------------------------------- *)
+Definition inb (x : string) (mods : list string) : bool := existsb (String.eqb x) mods.
+Definition unch (mods : list string) (en en' : env) : Prop := forall x, inb x mods = false -> lookup x en' = lookup x en.
+
+Lemma unch_refl mods en : unch mods en en.
+Proof. intros x _. reflexivity. Qed.
+
+Lemma unch_trans mods en1 en2 en3 : unch mods en1 en2 -> unch mods en2 en3 -> unch mods en1 en3.
+Proof. intros H1 H2 x Hx. rewrite (H2 x Hx). apply H1, Hx. Qed.
+
+Lemma inb_true_neq x y mods : inb x mods = false -> inb y mods = true -> x <> y.
+Proof. intros H1 H2 E. subst y. rewrite H1 in H2. discriminate. Qed.
+
+Lemma unch_update mods en en' y v : inb y mods = true -> unch mods en en' -> unch mods en (update y v en').
+Proof.
+  intros Hy H x Hx. rewrite lookup_update_other by (eapply inb_true_neq; eassumption). apply H, Hx.
+Qed.
+
+Lemma unch_weaken mods mods' en en' : (forall x, inb x mods = true -> inb x mods' = true) -> unch mods en en' -> unch mods' en en'.
+Proof.
+  intros Hs H x Hx. apply H. destruct (inb x mods) eqn:E; [|reflexivity]. rewrite (Hs x E) in Hx. discriminate.
+Qed.
+
+Lemma unch_sub mods mods' en en' : forallb (fun x => inb x mods') mods = true -> unch mods en en' -> unch mods' en en'.
+Proof.
+  intros H U. apply (unch_weaken mods); [|exact U]. intros x Hx. unfold inb in Hx. apply existsb_exists in Hx.
+  destruct Hx as [y [Hy E]]. apply String.eqb_eq in E. subst y. rewrite forallb_forall in H. exact (H x Hy).
+Qed.
+
+Ltac unch_solve := repeat (apply unch_update; [reflexivity|]); first [apply unch_refl|assumption].
+(* resolve the lookups of the goal down to the hypotheses *)
+Ltac lku := repeat first [rewrite lookup_update_same | rewrite lookup_update_other by discriminate
+                         | match goal with U : unch _ _ ?e |- context [lookup ?x ?e] => rewrite (U x) by reflexivity end].
+Ltac lks := repeat (lku; match goal with H : lookup _ _ = Ret _ |- _ => rewrite H end); lku.
+Ltac lka := lku; first [assumption|reflexivity].
+
+Section Cap.
+  Variable ce : string -> list val -> res val.
+  Variable fuel : nat.
+  Variable acc : list (list Z).
+  Variables (tolz : Z) (tol : float) (L : float -> float) (maxit : nat) (repeats : Z) (process verbose : bool).
+  Hypothesis Hce : externals_ok ce tolz tol L.
+  Hypothesis Hne : acc <> [].
+  Hypothesis Hrows : Forall (fun row => length row = 4%nat) acc.
+  Hypothesis Hrange : Forall (Forall (fun x => x < Z.of_nat (length acc))) acc.
+
+  (* ---- one column ---------------------------------------------------------------------------------------------------------- *)
+  Lemma exec_colbody en last ev col :
+    lookup "last_eigenvector" en = Ret (vfloats last) -> lookup "eigenvector" en = Ret (vfloats ev) ->
+    lookup "positions" en = Ret (varr col) -> length ev = length col ->
+    Forall (fun x => x < Z.of_nat (length last)) col ->
+    exec ce fuel colbody en
+    = ONormal (update "eigenvector" (vfloats (col_step last ev col)) (update "available" (VTuple [varr (used_indices col)]) en)).
+  Proof.
+    intros HL HE HP Hlen Hr. unfold colbody.
+    cbn [exec eval]. rewrite HP. cbn [rbind]. rewrite cmp_top_varr, cmp_ge0_varr. cbn [rbind]. rewrite where_ge0.
+    cbn [lift assign seq]. lks. cbn [lift rbind].
+    assert (Hidx : Forall (fun j => 0 <= j < Z.of_nat (length ev)) (used_indices col)).
+    { rewrite Hlen. apply used_indices_range. }
+    unfold vfloats at 1 2. unfold varr at 1. rewrite index_tuple, (index_pos VFloat 0%float) by exact Hidx. cbn [lift].
+    unfold varr at 1 2. rewrite index_tuple, (index_pos VInt 0) by (rewrite <- Hlen; exact Hidx). cbn [rbind].
+    rewrite <- (map_map (fun j => nth (Z.to_nat j) col 0) VInt).
+    unfold vfloats at 1. rewrite (index_pos VFloat 0%float).
+    2:{ apply Forall_forall. intros x Hx. apply in_map_iff in Hx. destruct Hx as [j [<- Hj]].
+        pose proof (used_from_live _ _ _ Hj) as H0. rewrite Z.sub_0_r in H0. split; [exact H0|].
+        rewrite Forall_forall in Hr. apply used_from_bounds in Hj.
+        assert (Hlt : (Z.to_nat j < length col)%nat) by lia.
+        exact (Hr _ (nth_In col 0 Hlt)). }
+    rewrite map_map. cbn [lift].
+    rewrite (binop_add_maps (fun j => nth (Z.to_nat j) ev 0%float)
+                            (fun j => nth (Z.to_nat (nth (Z.to_nat j) col 0)) last 0%float)). cbn [lift].
+    unfold varr at 1. rewrite store_tuple.
+    rewrite (store_pos (fun j => (nth (Z.to_nat j) ev 0 + nth (Z.to_nat (nth (Z.to_nat j) col 0%Z)) last 0)%float)).
+    2:{ apply forallb_isfloat'. }
+    2:{ apply nodupb_used_from. }
+    2:{ rewrite map_length. exact Hidx. }
+    cbn [lift]. unfold used_indices.
+    rewrite (scatter_used last _ col ev [] Hlen).
+    2:{ intros i Hi. cbn [length Nat.add]. rewrite Nat2Z.id. reflexivity. }
+    reflexivity.
+  Qed.
+
+  (* ---- the column loop: the matrix-vector product ---------------------------------------------------------------------- *)
+  Definition colv (j : nat) : list Z := map (fun r => nth j r 0) acc.
+
+  Lemma transpose_acc : builtin1_val BTranspose (varr2 acc) = Ret (VArr (map (fun j => varr (colv j)) [0; 1; 2; 3]%nat)).
+  Proof. apply transpose_rows4; assumption. Qed.
+
+  Definition add_entry (last : list float) (r : list Z) (s : float) (j : nat) : float :=
+    if 0 <=? nth j r 0 then (s + nth (Z.to_nat (nth j r 0%Z)) last 0)%float else s.
+
+  Lemma colv_range j (last : list float) : length last = length acc -> Forall (fun x => x < Z.of_nat (length last)) (colv j).
+  Proof.
+    intro HL. unfold colv. apply Forall_forall. intros x Hx. apply in_map_iff in Hx. destruct Hx as [r [<- Hr]].
+    rewrite HL. rewrite Forall_forall in Hrange. specialize (Hrange r Hr). rewrite Forall_forall in Hrange.
+    destruct (nth_in_or_default j r 0) as [Hin|Hd]; [apply Hrange, Hin|]. rewrite Hd.
+    destruct acc; [contradiction|cbn [length]; lia].
+  Qed.
+
+  Lemma col_loop (last : list float) : length last = length acc -> forall js en (g : list Z -> float),
+    lookup "last_eigenvector" en = Ret (vfloats last) -> lookup "eigenvector" en = Ret (vfloats (map g acc)) ->
+    exists en', for_loop ce fuel (TVar "positions") colbody (map (fun j => varr (colv j)) js) en = ONormal en' /\
+      unch ["positions"; "available"; "eigenvector"] en en' /\
+      lookup "eigenvector" en' = Ret (vfloats (map (fun r => fold_left (add_entry last r) js (g r)) acc)).
+  Proof.
+    intros HL js. induction js as [|j js IH]; intros en g H1 H2.
+    - exists en. split; [reflexivity|]. split; [apply unch_refl|exact H2].
+    - cbn [map for_loop assign seq].
+      rewrite (exec_colbody _ last (map g acc) (colv j)); [| lka | lka | lka | unfold colv; rewrite !map_length; reflexivity
+                                                          | apply colv_range, HL ].
+      cbn [seq]. unfold colv at 2. rewrite col_step_map.
+      match goal with |- context [for_loop _ _ _ _ _ ?e] => set (en1 := e) end.
+      destruct (IH en1 (fun r => add_entry last r (g r) j)) as [en' [E [U HV]]].
+      + unfold en1. lka.
+      + unfold en1. lk. reflexivity.
+      + exists en'. split; [exact E|]. split; [|exact HV].
+        eapply unch_trans; [|exact U]. unfold en1. unch_solve.
+  Qed.
+
+  Lemma row_sum_fold last r : length r = 4%nat -> fold_left (add_entry last r) [0; 1; 2; 3]%nat 0%float = Capacity.row_sum last r.
+  Proof.
+    intro H. destruct r as [|a [|b [|c [|d [|]]]]]; try discriminate. reflexivity.
+  Qed.
+
+  Lemma exec_w2 en (last : list float) : length last = length acc ->
+    lookup "accessor" en = Ret (varr2 acc) ->
+    lookup "last_eigenvector" en = Ret (vfloats last) -> lookup "eigenvector" en = Ret (vfloats (map (fun _ => 0%float) acc)) ->
+    exists en', exec ce fuel w2 en = ONormal en' /\
+      unch ["positions"; "available"; "eigenvector"] en en' /\
+      lookup "eigenvector" en' = Ret (vfloats (Capacity.mat_vec acc last)).
+  Proof.
+    intros HL HA H1 H2. rewrite w2_eq, exec_for. cbn [eval]. rewrite HA. cbn [rbind]. rewrite transpose_acc. cbn [lift items].
+    destruct (col_loop last HL [0; 1; 2; 3]%nat en (fun _ => 0%float) H1 H2) as [en' [E [U HV]]].
+    exists en'. split; [exact E|]. split; [exact U|]. rewrite HV. unfold Capacity.mat_vec. do 2 f_equal.
+    apply map_ext_in. intros r Hr. apply row_sum_fold. rewrite Forall_forall in Hrows. exact (Hrows r Hr).
+  Qed.
+
+  (* ---- the statements of the while body ------------------------------------------------------------------------------------- *)
+  Ltac ev := cbn [exec eval lift seq rbind assign items bind_tuple truthy binop_vals binop_scalar has_float as_float
+                  mixes_bool is_arr orb andb negb forallb key_ok fst snd].
+
+  Lemma exec_w1 en (x : list float) : lookup "last_eigenvector" en = Ret (vfloats x) -> length x = length acc ->
+    exec ce fuel w1 en = ONormal (update "eigenvector" (vfloats (map (fun _ => 0%float) acc)) en).
+  Proof.
+    intros H Hl. unfold w1. ev. rewrite H. ev. rewrite zeros_like_floats.
+    - ev. rewrite (map_const_len 0%float x acc Hl). reflexivity.
+    - intro E. subst x. destruct acc; [contradiction|discriminate].
+  Qed.
+
+  Lemma exec_w3 en (v : list float) : lookup "eigenvector" en = Ret (vfloats v) -> v <> [] ->
+    exec ce fuel w3 en = ONormal (update "eigenvalue" (VFloat (Capacity.vec_max v)) en).
+  Proof. intros H Hv. unfold w3. ev. rewrite H. ev. rewrite np_max_floats by exact Hv. reflexivity. Qed.
+
+  Definition normalise (v : list float) (lam : float) : list float :=
+    if PrimFloat.ltb 0%float lam then map (fun a => (a / lam)%float) v else map (fun a => (a * 0)%float) v.
+
+  Lemma exec_w4 en (v : list float) lam : lookup "eigenvector" en = Ret (vfloats v) -> lookup "eigenvalue" en = Ret (VFloat lam) ->
+    exec ce fuel w4 en = ONormal (update "eigenvector" (vfloats (normalise v lam)) en).
+  Proof.
+    intros H1 H2. unfold w4, normalise. ev. rewrite H2. ev. rewrite cmp_gt_f0. ev.
+    destruct (PrimFloat.ltb 0%float lam) eqn:E; ev; rewrite H1; ev; rewrite ?H2; ev.
+    - rewrite div_arr by exact E. reflexivity.
+    - rewrite mul_arr. reflexivity.
+  Qed.
+
+  Lemma eval_lg en lam : lookup "eigenvalue" en = Ret (VFloat lam) -> lookup "tolerance_level" en = Ret (VInt tolz) ->
+    eval ce en lg_expr = Ret (VFloat (lg tol L lam)).
+  Proof.
+    intros H1 H2. unfold lg_expr, lg. ev. rewrite H1, H2. ev. rewrite (proj1 Hce). ev. rewrite cmp_gt_ff. ev.
+    destruct (PrimFloat.ltb tol lam); ev; [|reflexivity]. rewrite ?H1. ev. apply (proj2 Hce).
+  Qed.
+
+  Lemma exec_w5 en lam pre r : lookup "eigenvalue" en = Ret (VFloat lam) -> lookup "tolerance_level" en = Ret (VInt tolz) ->
+    lookup "record" en = Ret (VList (pre ++ [vflist r])) ->
+    exec ce fuel w5 en = ONormal (update "record" (VList (pre ++ [vflist (r ++ [lg tol L lam])])) en).
+  Proof.
+    intros H1 H2 H3. unfold w5. fold lg_expr. cbn [exec]. rewrite H3. cbn [lift eval]. rewrite index_last. cbn [lift].
+    rewrite (eval_lg en lam H1 H2). unfold vflist at 1. cbn [lift]. rewrite store_last. cbn [lift].
+    unfold vflist. rewrite map_app. reflexivity.
+  Qed.
+
+  Definition rel_err (lam l0 : float) : float := if PrimFloat.ltb 0%float l0 then (abs (lam - l0) / l0)%float else 0%float.
+
+  Lemma exec_i1 en lam l0 : lookup "eigenvalue" en = Ret (VFloat lam) -> lookup "last_eigenvalue" en = Ret (VFloat l0) ->
+    exec ce fuel i1 en = ONormal (update "relative_error" (VFloat (rel_err lam l0)) en).
+  Proof.
+    intros H1 H2. unfold i1, rel_err. ev. rewrite H2. ev. rewrite cmp_gt_ff. ev.
+    destruct (PrimFloat.ltb 0%float l0) eqn:E; ev; [|reflexivity].
+    rewrite ?H1, ?H2. ev. cbn [builtin1_val]. ev. rewrite (ltb_pos_neqb l0 E). reflexivity.
+  Qed.
+
+  Lemma exec_i2 en lam q : lookup "eigenvalue" en = Ret (VFloat lam) -> lookup "queue" en = Ret (vflist q) ->
+    exec ce fuel i2 en = ONormal (update "queue" (vflist (q ++ [lam])) en).
+  Proof. intros H1 H2. unfold i2. ev. rewrite H2, H1. ev. unfold vflist. rewrite map_app. reflexivity. Qed.
+
+  Lemma exec_i3 en lam rel c : lookup "verbose" en = Ret (VBool verbose) -> lookup "current" en = Ret (VInt c) ->
+    lookup "maximum_iteration" en = Ret (VInt (Z.of_nat maxit)) ->
+    lookup "eigenvalue" en = Ret (VFloat lam) -> lookup "relative_error" en = Ret (VFloat rel) ->
+    exec ce fuel i3 en = ONormal en.
+  Proof.
+    intros H1 H2 H3 H4 H5. unfold i3. ev. rewrite H1. ev. destruct verbose; ev; [|reflexivity].
+    rewrite H2, H3. ev. rewrite cmp_lt_ii. ev. destruct (c + 1 <? Z.of_nat maxit); ev; [|reflexivity].
+    rewrite ?H2, ?H3, ?H4, ?H5. ev. cbn [builtin1_val]. ev. reflexivity.
+  Qed.
+
+  Lemma exec_i4 en : exec ce fuel i4 en = ONormal (update "is_finished" (VBool false) en).
+  Proof. reflexivity. Qed.
+
+  Lemma exec_i5 en rel lam rs : lookup "relative_error" en = Ret (VFloat rel) -> lookup "eigenvalue" en = Ret (VFloat lam) ->
+    lookup "tolerance_level" en = Ret (VInt tolz) -> lookup "results" en = Ret (VList rs) ->
+    exec ce fuel i5 en = ONormal (if PrimFloat.ltb rel tol
+                                  then update "is_finished" (VBool true) (update "results" (VList (rs ++ [VFloat (lg tol L lam)])) en)
+                                  else en).
+  Proof.
+    intros H1 H2 H3 H4. unfold i5. fold lg_expr. cbn [exec eval]. rewrite H1, H3. ev. rewrite (proj1 Hce). ev.
+    rewrite cmp_lt_ff. ev. destruct (PrimFloat.ltb rel tol); [|reflexivity].
+    cbn [exec]. rewrite H4, (eval_lg en lam H2 H3). ev. reflexivity.
+  Qed.
+
+  Lemma exec_i6 en (q : list float) rs : lookup "queue" en = Ret (vflist q) -> q <> [] ->
+    lookup "maximum_iteration" en = Ret (VInt (Z.of_nat maxit)) ->
+    lookup "tolerance_level" en = Ret (VInt tolz) -> lookup "results" en = Ret (VList rs) ->
+    exec ce fuel i6 en = ONormal (if Nat.ltb maxit (length q)
+                                  then update "is_finished" (VBool true)
+                                         (update "results" (VList (rs ++ [VFloat (lg tol L (Capacity.fmedian q))]))
+                                            (update "eigenvalue" (VFloat (Capacity.fmedian q)) en))
+                                  else en).
+  Proof.
+    intros H1 Hq H2 H3 H4. unfold i6. fold lg_expr. cbn [exec eval]. rewrite H1, H2. ev. rewrite blen_vflist. ev. rewrite cmp_gt_ii. ev.
+    replace (Z.of_nat maxit <? Z.of_nat (length q)) with (Nat.ltb maxit (length q))
+      by (destruct (Nat.ltb maxit (length q)) eqn:E; [apply Nat.ltb_lt in E|apply Nat.ltb_ge in E]; lia).
+    destruct (Nat.ltb maxit (length q)); [|reflexivity].
+    ev. rewrite median_flist by exact Hq. ev. lk. rewrite H4.
+    rewrite (eval_lg _ (Capacity.fmedian q)) by (lk; first [reflexivity|assumption]). ev. reflexivity.
+  Qed.
+
+  Lemma exec_i7 en (fin : bool) rs x : lookup "is_finished" en = Ret (VBool fin) -> lookup "verbose" en = Ret (VBool verbose) ->
+    lookup "maximum_iteration" en = Ret (VInt (Z.of_nat maxit)) ->
+    (fin = true -> lookup "results" en = Ret (VList (rs ++ [VFloat x]))) ->
+    exec ce fuel i7 en = if fin then OBreak en else ONormal en.
+  Proof.
+    intros H1 H2 H3 H4. unfold i7. ev. rewrite H1. ev. destruct fin; [|reflexivity]. ev. rewrite H2. ev.
+    destruct verbose; ev; [|reflexivity]. rewrite H3, (H4 eq_refl). ev. rewrite index_last. ev. cbn [builtin1_val]. ev. reflexivity.
+  Qed.
+
+  Lemma exec_w7 en lam (v : list float) c : lookup "eigenvalue" en = Ret (VFloat lam) -> lookup "eigenvector" en = Ret (vfloats v) ->
+    lookup "current" en = Ret (VInt c) ->
+    exec ce fuel w7 en = ONormal (update "current" (VInt (c + 1)) (update "last_eigenvector" (vfloats v)
+                                    (update "last_eigenvalue" (VFloat lam) en))).
+  Proof. intros H1 H2 H3. unfold w7. ev. rewrite H1, H2, H3. ev. reflexivity. Qed.
+
+  (* ---- one iteration of the while loop ------------------------------------------------------------------------------------------ *)
+  Definition ign : list Z := used_indices (map (fun r => if Capacity.dead_row r then 0 else -1) acc).
+  Definition lgs (l : list float) : val := vflist (map (lg tol L) l).
+
+  Definition frame (en : env) : Prop :=
+    lookup "accessor" en = Ret (varr2 acc) /\ lookup "tolerance_level" en = Ret (VInt tolz) /\
+    lookup "repeats" en = Ret (VInt repeats) /\ lookup "maximum_iteration" en = Ret (VInt (Z.of_nat maxit)) /\
+    lookup "process" en = Ret (VBool process) /\ lookup "verbose" en = Ret (VBool verbose) /\
+    lookup "ignore_positions" en = Ret (varr ign).
+  Definition base (en : env) (rng : list (list float)) (res : list float) : Prop :=
+    frame en /\ lookup "__rng__" en = Ret (v_stream rng) /\ lookup "results" en = Ret (lgs res).
+  Definition St (en : env) rng res (recs : list (list float)) : Prop :=
+    base en rng res /\ lookup "record" en = Ret (VList (map lgs recs)).
+  Definition winv (en : env) rng res (recs : list (list float)) (x : list float) (last : option float) (queue record : list float)
+             (c : Z) : Prop :=
+    base en rng res /\ lookup "record" en = Ret (VList (map lgs recs ++ [lgs (rev record)])) /\
+    lookup "last_eigenvector" en = Ret (vfloats x) /\ length x = length acc /\
+    lookup "last_eigenvalue" en = Ret (match last with None => VNone | Some l => VFloat l end) /\
+    lookup "queue" en = Ret (vflist queue) /\ lookup "current" en = Ret (VInt c).
+
+  Lemma normalise_length v lam : length (normalise v lam) = length v.
+  Proof. unfold normalise. destruct (PrimFloat.ltb 0%float lam); apply map_length. Qed.
+
+  Lemma mat_vec_length (x : list float) : length (Capacity.mat_vec acc x) = length acc.
+  Proof. apply map_length. Qed.
+
+  Lemma exec_prefix en (x : list float) pre r :
+    lookup "accessor" en = Ret (varr2 acc) -> lookup "tolerance_level" en = Ret (VInt tolz) ->
+    lookup "last_eigenvector" en = Ret (vfloats x) -> length x = length acc ->
+    lookup "record" en = Ret (VList (pre ++ [vflist r])) ->
+    exists en1,
+      (forall k, exec ce fuel (SSeq w1 (SSeq w2 (SSeq w3 (SSeq w4 (SSeq w5 k))))) en = exec ce fuel k en1) /\
+      unch ["eigenvector"; "positions"; "available"; "eigenvalue"; "record"] en en1 /\
+      lookup "eigenvector" en1 = Ret (vfloats (normalise (Capacity.mat_vec acc x) (Capacity.vec_max (Capacity.mat_vec acc x)))) /\
+      lookup "eigenvalue" en1 = Ret (VFloat (Capacity.vec_max (Capacity.mat_vec acc x))) /\
+      lookup "record" en1 = Ret (VList (pre ++ [vflist (r ++ [lg tol L (Capacity.vec_max (Capacity.mat_vec acc x))])])).
+  Proof.
+    intros HA HT HL Hlen HR.
+    set (v := Capacity.mat_vec acc x). set (lam := Capacity.vec_max v).
+    destruct (exec_w2 (update "eigenvector" (vfloats (map (fun _ => 0%float) acc)) en) x Hlen) as [en_b [E2 [U2 HV2]]];
+      [lka|lka|lka|]. fold v in HV2.
+    assert (Hv : v <> []).
+    { intro E. apply (f_equal (@length float)) in E. unfold v in E. rewrite mat_vec_length in E.
+      destruct acc; [contradiction|discriminate]. }
+    eexists. split; [|split; [|split; [|split]]].
+    - intro k. rewrite (exec_seq _ _ w1), (exec_w1 en x HL Hlen). cbn [seq].
+      rewrite (exec_seq _ _ w2), E2. cbn [seq].
+      rewrite (exec_seq _ _ w3), (exec_w3 en_b v HV2 Hv). cbn [seq]. fold lam.
+      rewrite (exec_seq _ _ w4), (exec_w4 _ v lam) by lka. cbn [seq].
+      rewrite (exec_seq _ _ w5), (exec_w5 _ lam pre r) by lka. cbn [seq]. reflexivity.
+    - repeat (apply unch_update; [reflexivity|]). eapply unch_trans; [|eapply unch_sub; [|exact U2]]; [|reflexivity].
+      apply unch_update; [reflexivity|apply unch_refl].
+    - lka.
+    - lka.
+    - lka.
+  Qed.
+
+  Ltac split_all := repeat match goal with |- _ /\ _ => split end.
+
+  Lemma wbody_split en en1 :
+    (forall k, exec ce fuel (SSeq w1 (SSeq w2 (SSeq w3 (SSeq w4 (SSeq w5 k))))) en = exec ce fuel k en1) ->
+    exec ce fuel wbody en = seq (exec ce fuel w6 en1) (exec ce fuel w7).
+  Proof. intro H. rewrite wbody_eq, H. reflexivity. Qed.
+
+  Lemma step_first en rng res recs x queue record c :
+    winv en rng res recs x None queue record c ->
+    exists en', exec ce fuel wbody en = ONormal en' /\
+      winv en' rng res recs (normalise (Capacity.mat_vec acc x) (Capacity.vec_max (Capacity.mat_vec acc x)))
+           (Some (Capacity.vec_max (Capacity.mat_vec acc x))) queue (Capacity.vec_max (Capacity.mat_vec acc x) :: record) (c + 1).
+  Proof.
+    intros (((F1 & F2 & F3 & F4 & F5 & F6 & F7) & B1 & B2) & W1 & W2 & W3 & W4 & W5 & W6).
+    destruct (exec_prefix en x (map lgs recs) (map (lg tol L) (rev record)) F1 F2 W2 W3 W1) as [en1 [E1 [U1 [P1 [P2 P3]]]]].
+    set (lam := Capacity.vec_max (Capacity.mat_vec acc x)) in *.
+    set (v' := normalise (Capacity.mat_vec acc x) lam) in *.
+    eexists. split.
+    - rewrite (wbody_split en en1 E1). rewrite w6_eq, exec_if. cbn [eval]. lks. cbn [rbind builtin1_val negb truthy lift exec seq].
+      rewrite (exec_w7 en1 lam v' c) by lka. reflexivity.
+    - unfold winv, base, frame. split_all; try lka.
+      + lku. rewrite P3. cbn [rev]. unfold lgs. rewrite map_app. reflexivity.
+      + unfold v'. rewrite normalise_length. apply mat_vec_length.
+  Qed.
+
+  Lemma step_next en rng res recs x l0 queue record c :
+    winv en rng res recs x (Some l0) queue record c ->
+    let v := Capacity.mat_vec acc x in
+    let lam := Capacity.vec_max v in
+    let rel := rel_err lam l0 in
+    let queue' := queue ++ [lam] in
+    let over := Nat.ltb maxit (length queue') in
+    if PrimFloat.ltb rel tol || over
+    then exists en', exec ce fuel wbody en = OBreak en' /\
+           St en' rng (res ++ (if PrimFloat.ltb rel tol then [lam] else []) ++ (if over then [Capacity.fmedian queue'] else []))
+              (recs ++ [rev (lam :: record)])
+    else exists en', exec ce fuel wbody en = ONormal en' /\
+           winv en' rng res recs (normalise v lam) (Some lam) queue' (lam :: record) (c + 1).
+  Proof.
+    intros (((F1 & F2 & F3 & F4 & F5 & F6 & F7) & B1 & B2) & W1 & W2 & W3 & W4 & W5 & W6). intros v lam rel queue' over.
+    destruct (exec_prefix en x (map lgs recs) (map (lg tol L) (rev record)) F1 F2 W2 W3 W1) as [en1 [E1 [U1 [P1 [P2 P3]]]]].
+    fold v in P1, P2, P3. fold lam in P1, P2, P3.
+    assert (EX : exec ce fuel wbody en = seq (exec ce fuel inner en1) (exec ce fuel w7)).
+    { rewrite (wbody_split en en1 E1). rewrite w6_eq, exec_if. cbn [eval]. lks. cbn [rbind builtin1_val negb truthy lift]. reflexivity. }
+    rewrite EX. clear EX E1.
+    rewrite inner_eq.
+    rewrite (exec_seq _ _ i1), (exec_i1 en1 lam l0) by lka. cbn [seq]. fold rel.
+    rewrite (exec_seq _ _ i2), (exec_i2 _ lam queue) by lka. cbn [seq]. fold queue'.
+    rewrite (exec_seq _ _ i3), (exec_i3 _ lam rel c) by lka. cbn [seq].
+    rewrite (exec_seq _ _ i4), exec_i4. cbn [seq].
+    rewrite (exec_seq _ _ i5), (exec_i5 _ rel lam (map VFloat (map (lg tol L) res))) by lka. cbn [seq].
+    assert (Hq : queue' <> []) by (unfold queue'; destruct queue; discriminate).
+    destruct (PrimFloat.ltb rel tol) eqn:Erel;
+      [rewrite (exec_seq _ _ i6), (exec_i6 _ queue' (map VFloat (map (lg tol L) res) ++ [VFloat (lg tol L lam)])) by first [exact Hq|lka]
+      |rewrite (exec_seq _ _ i6), (exec_i6 _ queue' (map VFloat (map (lg tol L) res))) by first [exact Hq|lka]];
+      cbn [seq]; fold over; destruct over eqn:Eover; cbn [orb].
+    - rewrite (exec_i7 _ true (map VFloat (map (lg tol L) res) ++ [VFloat (lg tol L lam)]) (lg tol L (Capacity.fmedian queue')))
+        by (intros; lka). cbn [seq].
+      eexists. split; [reflexivity|]. unfold St, base, frame. split_all; try lka.
+      + lku. unfold lgs, vflist. rewrite !map_app. cbn [map app]. rewrite <- app_assoc. reflexivity.
+      + lku. rewrite P3. cbn [rev]. unfold lgs. rewrite ?map_app. cbn [map]. rewrite ?map_app. reflexivity.
+    - rewrite (exec_i7 _ true (map VFloat (map (lg tol L) res)) (lg tol L lam)) by (intros; lka). cbn [seq].
+      eexists. split; [reflexivity|]. unfold St, base, frame. split_all; try lka.
+      + lku. unfold lgs, vflist. rewrite !map_app. cbn [map app]. reflexivity.
+      + lku. rewrite P3. cbn [rev]. unfold lgs. rewrite ?map_app. cbn [map]. rewrite ?map_app. reflexivity.
+    - rewrite (exec_i7 _ true (map VFloat (map (lg tol L) res)) (lg tol L (Capacity.fmedian queue'))) by (intros; lka). cbn [seq].
+      eexists. split; [reflexivity|]. unfold St, base, frame. split_all; try lka.
+      + lku. unfold lgs, vflist. rewrite !map_app. cbn [map app]. reflexivity.
+      + lku. rewrite P3. cbn [rev]. unfold lgs. rewrite ?map_app. cbn [map]. rewrite ?map_app. reflexivity.
+    - rewrite (exec_i7 _ false [] 0%float) by (intros; try discriminate; lka). cbn [seq].
+      rewrite (exec_w7 _ lam (normalise v lam) c) by lka.
+      eexists. split; [reflexivity|]. unfold winv, base, frame. split_all; try lka.
+      + lku. rewrite P3. cbn [rev]. unfold lgs. rewrite map_app. reflexivity.
+      + rewrite normalise_length. apply mat_vec_length.
+  Qed.
+
+  (* ---- the while loop is Capacity.power_loop -------------------------------------------------------------------------------------- *)
+  Lemma while_run : forall f m en rng res recs x last queue record c r rc,
+    (f <= m)%nat -> winv en rng res recs x last queue record c ->
+    Capacity.power_loop f acc tol maxit x last queue record = Some (r, rc) ->
+    exists en', while_loop_b ce fuel (EBoolLit true) wbody m en = ONormal en' /\ St en' rng (res ++ r) (recs ++ [rc]).
+  Proof.
+    induction f as [|f IH]; intros m en rng res recs x last queue record c r rc Hm HI HP; [discriminate|].
+    destruct m as [|m]; [lia|]. rewrite while_loop_b_S. cbn [eval lift truthy].
+    cbn [Capacity.power_loop] in HP. cbv zeta in HP.
+    destruct last as [l0|].
+    - pose proof (step_next en rng res recs x l0 queue record c HI) as S. cbv zeta in S. unfold rel_err in S.
+      revert S HP. match goal with |- (if ?b then _ else _) -> _ => destruct b eqn:EC end; intros S HP.
+      + destruct S as [en' [E HS]]. rewrite E. cbn [loop_seq]. injection HP as <- <-. exists en'. split; [reflexivity|exact HS].
+      + destruct S as [en' [E HS]]. rewrite E. cbn [loop_seq]. eapply IH; [lia|exact HS|exact HP].
+    - destruct (step_first en rng res recs x queue record c HI) as [en' [E HS]]. rewrite E. cbn [loop_seq].
+      eapply IH; [lia|exact HS|exact HP].
+  Qed.
+
+  (* ---- one repeat ---------------------------------------------------------------------------------------------------------------- *)
+  Lemma exec_o1 en : lookup "verbose" en = Ret (VBool verbose) -> lookup "repeats" en = Ret (VInt repeats) ->
+    exec ce fuel o1 en = ONormal en.
+  Proof.
+    intros H1 H2. unfold o1. ev. rewrite H1. ev. destruct verbose; ev; [|reflexivity]. rewrite H2. ev. rewrite cmp_gt_ii. ev.
+    destruct (1 <? repeats); reflexivity.
+  Qed.
+
+  Lemma exec_o2 en rs : lookup "record" en = Ret (VList rs) ->
+    exec ce fuel o2 en = ONormal (update "record" (VList (rs ++ [VList []])) en).
+  Proof. intro H. unfold o2. ev. rewrite H. ev. reflexivity. Qed.
+
+  Lemma blen_acc : builtin1_val BLen (varr2 acc) = Ret (VInt (Z.of_nat (length acc))).
+  Proof. unfold builtin1_val, varr2. rewrite map_length. reflexivity. Qed.
+
+  Lemma exec_o3_ones en : lookup "repeats" en = Ret (VInt repeats) -> repeats = 1 -> lookup "accessor" en = Ret (varr2 acc) ->
+    exec ce fuel o3 en = ONormal (update "last_eigenvector" (vfloats (map abs (Capacity.ones (length acc)))) en).
+  Proof.
+    intros H1 H2 H3. unfold o3. ev. rewrite H1. ev. rewrite cmp_gt_ii. subst repeats. change (1 <? 1) with false. ev.
+    rewrite H3. ev. rewrite blen_acc. ev. unfold builtin1_val. rewrite Nat2Z.id. ev.
+    unfold vfloats, Capacity.ones. rewrite !map_repeat'. reflexivity.
+  Qed.
+
+  Lemma exec_o3_rand en (x0 : list float) rng' : lookup "repeats" en = Ret (VInt repeats) -> 1 < repeats ->
+    lookup "accessor" en = Ret (varr2 acc) -> lookup "__rng__" en = Ret (v_stream (x0 :: rng')) -> length x0 = length acc ->
+    exec ce fuel o3 en = ONormal (update "last_eigenvector" (vfloats (map abs x0)) (update "__rand__" (vfloats x0)
+                                    (update "__rng__" (v_stream rng') en))).
+  Proof.
+    intros H1 H2 H3 H4 H5. unfold o3. ev. rewrite H1. ev. rewrite cmp_gt_ii.
+    destruct (1 <? repeats) eqn:E; [|lia]. ev. rewrite H3. ev. rewrite blen_acc. ev. rewrite H4. ev.
+    unfold v_stream. cbn [map]. unfold vfloats at 1. rewrite forallb_isfloat', map_length, H5, Z.eqb_refl. cbn [andb seq].
+    ev. lk. ev. unfold builtin1_val. rewrite floats_of_map. ev. unfold vfloats. rewrite map_map. reflexivity.
+  Qed.
+
+  Lemma exec_o4 en (s : list float) : lookup "ignore_positions" en = Ret (varr ign) -> lookup "last_eigenvector" en = Ret (vfloats s) ->
+    length s = length acc ->
+    exec ce fuel o4 en = ONormal (update "last_eigenvector" (vfloats (Capacity.zero_dead acc s)) en).
+  Proof. intros H1 H2 H3. unfold o4. ev. rewrite H1, H2. ev. unfold ign. rewrite store_zero_dead by exact H3. reflexivity. Qed.
+
+  Lemma exec_o5 en : exec ce fuel o5 en = ONormal (update "current" (VInt 0) (update "last_eigenvalue" VNone (update "queue" (VList [])
+                                                    (update "monitor" VOpaque en)))).
+  Proof. reflexivity. Qed.
+
+  Lemma zero_dead_length (s : list float) : length s = length acc -> length (Capacity.zero_dead acc s) = length acc.
+  Proof. intro H. unfold Capacity.zero_dead. rewrite map_length, combine_length. lia. Qed.
+
+  Lemma outer_tail en rng res recs (s : list float) r rc :
+    (S (S maxit) <= fuel)%nat -> base en rng res -> lookup "record" en = Ret (VList (map lgs recs ++ [VList []])) ->
+    lookup "last_eigenvector" en = Ret (vfloats s) -> length s = length acc ->
+    Capacity.power_loop (S (S maxit)) acc tol maxit (Capacity.zero_dead acc s) None [] [] = Some (r, rc) ->
+    exists en', exec ce fuel (SSeq o4 (SSeq o5 s_while)) en = ONormal en' /\ St en' rng (res ++ r) (recs ++ [rc]).
+  Proof.
+    intros Hf ((F1 & F2 & F3 & F4 & F5 & F6 & F7) & B1 & B2) HR HL Hlen HP.
+    rewrite (exec_seq _ _ o4), (exec_o4 en s F7 HL Hlen). cbn [seq].
+    rewrite (exec_seq _ _ o5), exec_o5. cbn [seq]. rewrite s_while_eq, exec_while_b.
+    eapply while_run; [exact Hf| |exact HP].
+    unfold winv, base, frame. split_all; try lka. apply zero_dead_length, Hlen.
+  Qed.
+
+  Definition feeds (rng starts rng' : list (list float)) : Prop :=
+    (repeats = 1 /\ Forall (fun s => s = Capacity.ones (length acc)) starts /\ rng' = rng) \/
+    (1 < repeats /\ rng = starts ++ rng' /\ Forall (fun s : list float => length s = length acc) starts).
+
+  Lemma outer_step en rng res recs x0 rest rng' r rc :
+    (S (S maxit) <= fuel)%nat -> St en rng res recs -> feeds rng (x0 :: rest) rng' ->
+    Capacity.power_loop (S (S maxit)) acc tol maxit (Capacity.zero_dead acc (map abs x0)) None [] [] = Some (r, rc) ->
+    exists en' rng1, exec ce fuel obody en = ONormal en' /\ St en' rng1 (res ++ r) (recs ++ [rc]) /\ feeds rng1 rest rng'.
+  Proof.
+    intros Hf (((F1 & F2 & F3 & F4 & F5 & F6 & F7) & B1 & B2) & R1) HF HP.
+    rewrite obody_eq. rewrite (exec_seq _ _ o1), (exec_o1 en F6 F3). cbn [seq].
+    rewrite (exec_seq _ _ o2), (exec_o2 en _ R1). cbn [seq]. rewrite (exec_seq _ _ o3).
+    destruct HF as [(Hr & Hs & ->)|(Hr & -> & Hs)].
+    - inversion Hs as [|? ? Hx0 Hrest]; subst x0.
+      rewrite exec_o3_ones by lka. cbn [seq].
+      match goal with |- context [exec ce fuel (SSeq o4 _) ?e] =>
+        destruct (outer_tail e rng res recs (map abs (Capacity.ones (length acc))) r rc Hf) as [en' [E HS]] end.
+      + unfold base, frame. split_all; lka.
+      + lka.
+      + lka.
+      + rewrite map_length. apply repeat_length.
+      + exact HP.
+      + exists en', rng. split; [exact E|]. split; [exact HS|]. left. split; [exact Hr|]. split; [exact Hrest|reflexivity].
+    - inversion Hs as [|? ? Hx0 Hrest]; subst.
+      rewrite (exec_o3_rand _ x0 (rest ++ rng')) by first [lka|lia]. cbn [seq].
+      match goal with |- context [exec ce fuel (SSeq o4 _) ?e] =>
+        destruct (outer_tail e (rest ++ rng') res recs (map abs x0) r rc Hf) as [en' [E HS]] end.
+      + unfold base, frame. split_all; lka.
+      + lka.
+      + lka.
+      + rewrite map_length. exact Hx0.
+      + exact HP.
+      + exists en', (rest ++ rng'). split; [exact E|]. split; [exact HS|]. right. split; [exact Hr|]. split; [reflexivity|exact Hrest].
+  Qed.
+
+  Lemma outer_loop : forall starts vs en rng res recs rng' r rcs,
+    (S (S maxit) <= fuel)%nat -> length vs = length starts -> St en rng res recs -> feeds rng starts rng' ->
+    Capacity.repeats_loop acc tol maxit starts = Some (r, rcs) ->
+    exists en', for_loop ce fuel (TVar "repeat") obody vs en = ONormal en' /\ St en' rng' (res ++ r) (recs ++ rcs).
+  Proof.
+    induction starts as [|x0 rest IH]; intros vs en rng res recs rng' r rcs Hf Hl HS HF HR.
+    - destruct vs; [|discriminate]. cbn [Capacity.repeats_loop] in HR. injection HR as <- <-. rewrite !app_nil_r.
+      exists en. split; [reflexivity|].
+      destruct HF as [(_ & _ & ->)|(_ & -> & _)]; exact HS.
+    - destruct vs as [|v vs]; [discriminate|]. cbn [length] in Hl. cbn [Capacity.repeats_loop] in HR.
+      destruct (Capacity.power_loop (S (S maxit)) acc tol maxit (Capacity.zero_dead acc (map abs x0)) None [] []) as [[r1 rc]|] eqn:HP;
+        [|discriminate].
+      destruct (Capacity.repeats_loop acc tol maxit rest) as [[r2 rcs2]|] eqn:HR2; [|discriminate].
+      injection HR as <- <-.
+      rewrite for_loop_cons. cbn [assign seq].
+      destruct (outer_step (update "repeat" v en) rng res recs x0 rest rng' r1 rc Hf) as [en1 [rng1 [E [HS1 HF1]]]].
+      + destruct HS as (((F1 & F2 & F3 & F4 & F5 & F6 & F7) & B1 & B2) & R1). unfold St, base, frame. split_all; lka.
+      + exact HF.
+      + exact HP.
+      + rewrite E. cbn [seq].
+        destruct (IH vs en1 rng1 (res ++ r1) (recs ++ [rc]) rng' r2 rcs2 Hf ltac:(lia) HS1 HF1 eq_refl) as [en' [E' HS']].
+        exists en'. split; [exact E'|]. rewrite <- !app_assoc in HS'. exact HS'.
+  Qed.
+
+  (* ---- before and after the repeats ---------------------------------------------------------------------------------------------- *)
+  Lemma exec_early en : lookup "accessor" en = Ret (varr2 acc) -> lookup "process" en = Ret (VBool process) ->
+    lookup "repeats" en = Ret (VInt repeats) -> 0 <= repeats ->
+    exec ce fuel s_early en = if Capacity.all_minus_one acc then OReturn (capacity_result tol L repeats process None) else ONormal en.
+  Proof.
+    intros H1 H2 H3 Hr. unfold s_early. cbn [exec eval]. rewrite H1. cbn [rbind]. rewrite (all_eq_m1 acc Hne). ev.
+    destruct (Capacity.all_minus_one acc); [|reflexivity]. rewrite H2. ev. unfold capacity_result.
+    destruct process; [|reflexivity]. cbn [eval]. rewrite H3. cbn [rbind]. rewrite cmp_eq_ii. ev.
+    destruct (repeats =? 1); [reflexivity|]. cbn [eval]. rewrite ?H3. cbn [rbind]. rewrite (range_items repeats Hr). ev.
+    rewrite (map_res_const (VList [VFloat 0%float])) by (intros; reflexivity). rewrite zrange_up_length. reflexivity.
+  Qed.
+
+  Lemma exec_ign en : lookup "accessor" en = Ret (varr2 acc) ->
+    exec ce fuel s_ign en = ONormal (update "ignore_positions" (varr ign) en).
+  Proof.
+    intro H. unfold s_ign. cbn [exec eval]. rewrite H. cbn [rbind]. rewrite sum_axis1. cbn [rbind].
+    rewrite (len_row0 acc Hne Hrows). cbn [rbind binop_vals binop_scalar has_float]. change (0 - 4) with (-4).
+    rewrite cmp_top_varr, cmp_eq_varr. cbn [rbind]. rewrite where_bools. cbn [rbind]. rewrite index_tuple1. cbn [lift assign].
+    rewrite map_map. reflexivity.
+  Qed.
+
+  Lemma exec_init en : exec ce fuel s_init en = ONormal (update "record" (VList []) (update "results" (VList []) en)).
+  Proof. reflexivity. Qed.
+
+  Lemma exec_ret en rng res recs : St en rng res recs -> res <> [] -> recs <> [] ->
+    exec ce fuel s_ret en = OReturn (capacity_result tol L repeats process (Some (res, recs))).
+  Proof.
+    intros (((F1 & F2 & F3 & F4 & F5 & F6 & F7) & B1 & B2) & R1) Hres Hrecs. unfold s_ret. ev. rewrite F5. ev.
+    assert (Hm : map (lg tol L) res <> []) by (destruct res; [contradiction|discriminate]).
+    unfold capacity_result. destruct process; cbn [exec eval]; rewrite ?F3, ?B2, ?R1; cbn [rbind].
+    - rewrite cmp_eq_ii. ev. destruct (repeats =? 1); cbn [eval]; rewrite ?B2, ?R1; unfold lgs at 1; cbn [rbind];
+        rewrite (median_fmedianf _ Hm); cbn [rbind lift]; [|reflexivity].
+      destruct recs as [|rc0 recs']; [contradiction|]. cbn [map hd]. rewrite index_head. reflexivity.
+    - unfold lgs. rewrite (median_fmedianf _ Hm). reflexivity.
+  Qed.
+End Cap.
 
 Theorem approximate_capacity_gen : forall ce fuel acc tolz tol L repeats maxit process verbose stream,
   externals_ok ce tolz tol L ->
@@ -28,35 +1137,44 @@ Theorem approximate_capacity_gen : forall ce fuel acc tolz tol L repeats maxit p
     | Some r => Ret (capacity_result tol L repeats process r)
     | None => Fuel
     end.
+Proof.
+  intros ce fuel acc tolz tol L repeats maxit process verbose stream Hce Hne Hrows Hrange Hrep Hstream Hlens Hfuel.
+  unfold run_fun. rewrite body_eq. cbn [params approximate_capacity_def bind_params].
+  set (en0 := [("accessor", varr2 acc); ("tolerance_level", VInt tolz); ("repeats", VInt repeats);
+               ("maximum_iteration", VInt (Z.of_nat maxit)); ("process", VBool process); ("verbose", VBool verbose);
+               ("__rng__", v_stream stream)]).
+  rewrite exec_seq, (exec_early ce fuel acc tol L repeats process Hne en0) by first [reflexivity|lia].
+  unfold Capacity.approximate_capacity. destruct (Capacity.all_minus_one acc); [reflexivity|]. cbn [seq].
+  rewrite exec_seq, (exec_ign ce fuel acc Hne Hrows en0) by reflexivity. cbn [seq].
+  rewrite exec_seq, exec_init. cbn [seq].
+  set (starts := starts_of (length acc) repeats stream).
+  destruct (CapacityTermProofs.repeats_loop_spec acc tol maxit starts) as (res & recs & ER & Hlr & Hls).
+  rewrite ER.
+  assert (Hst : length starts = Z.to_nat repeats /\
+                feeds acc repeats stream starts (if repeats =? 1 then stream else skipn (Z.to_nat repeats) stream)).
+  { unfold starts, starts_of, feeds. destruct (repeats =? 1) eqn:E.
+    - assert (repeats = 1) by lia. subst repeats. split; [reflexivity|]. left. split; [reflexivity|].
+      split; [repeat constructor|reflexivity].
+    - assert (Hk : (Z.to_nat repeats <= length stream)%nat) by (destruct Hstream; [lia|assumption]).
+      split; [apply firstn_length_le, Hk|]. right. split; [lia|]. split; [symmetry; apply firstn_skipn|exact Hlens]. }
+  destruct Hst as [Hlen HF].
+  rewrite exec_seq, s_for_eq, exec_for. cbn [eval]. 
+  match goal with |- context [for_loop _ _ _ _ _ ?e] => set (en1 := e) end.
+  assert (E1 : lookup "repeats" en1 = Ret (VInt repeats)) by reflexivity. rewrite E1. cbn [rbind].
+  rewrite (range_items repeats) by lia. cbn [lift items].
+  destruct (outer_loop ce fuel acc tolz tol L maxit repeats process verbose Hce Hne Hrows Hrange
+              starts (zrange_up (Z.to_nat repeats) 0 1) en1 stream [] []
+              (if repeats =? 1 then stream else skipn (Z.to_nat repeats) stream) res recs) as [en' [E HS]].
+  - lia.
+  - rewrite zrange_up_length. symmetry. exact Hlen.
+  - unfold St, base, frame, en1, en0. repeat match goal with |- _ /\ _ => split end; reflexivity.
+  - exact HF.
+  - exact ER.
+  - rewrite E. cbn [seq]. cbn [app] in HS.
+    rewrite (exec_ret ce fuel acc tolz tol L maxit repeats process verbose en' _ res recs HS).
+    + reflexivity.
+    + intro E0. subst res. cbn [length] in Hls. lia.
+    + intro E0. subst recs. cbn [length] in Hlr. lia.
+Qed.
 
-   Notes.
-   * The program (read CapacityGen.v): arc-less early return; ignore_positions = where(sum(accessor, axis=1) == -4)[0]
-     (= rows with Capacity.dead_row); for each repeat: record.append([]); start vector = |next stream array| (SNextRandom pops
-     "__rng__") or ones; start[ignore_positions] = 0.0 (= Capacity.zero_dead); `while True` (SWhileB, fuel = the run_fun fuel):
-       eigenvector = zeros_like(last); for each COLUMN positions of accessor (BTranspose): available = where(positions >= 0);
-       eigenvector[available] += last[positions[available]]   -- per vertex this adds its live entries left to right starting
-       from 0.0, which is Capacity.row_sum (prove it by induction over the four columns; entries >= n would raise IndexError:
-       excluded by the hypothesis; entries < -1 are simply not live in both);
-       eigenvalue = max(eigenvector) (BNpMax on floats = fold_left fmaxf = Capacity.vec_max; acc <> [] so the vector is non-empty);
-       normalise (/ eigenvalue when eigenvalue > 0, else * 0.0); record[-1].append(lg eigenvalue) (SAppendAt);
-       from the second iteration on: relative error, queue.append, tolerance test, median fallback (BMedian = fmedianf, the same
-       text as Capacity.fmedian on the queue IN THE ORDER OF THE CODE, which is the model's order), break when finished;
-       last_eigenvalue, last_eigenvector, current = eigenvalue, eigenvector, current + 1.
-     The model: Capacity.power_loop (fuel S (S maxit): never runs out, see Proofs/CapacityTermProofs.v: power_loop_terminates_partial;
-     you may use it to know the model's result is Some) / repeats_loop / approximate_capacity.  The model keeps the raw eigenvalues;
-     the program stores lg tol L of them: results = map (lg tol L) res, record = map (map (lg tol L)) recs.
-   * verbose only evaluates tuples / dicts of already bound floats (BFmtFloat needs a VFloat; results[-1] exists when finished).
-   * float facts you may need (x / y is Stuck in MiniPyC when y =? 0): (0 <? y) = true -> (y =? 0) = false.  Prove it from Coq's
-     FloatAxioms (ltb_spec, eqb_spec: PrimFloat.ltb x y = SFltb (Prim2SF x) (Prim2SF y) ...) by case analysis on Prim2SF y -- the
-     specification axioms of the primitive floats that the standard library declares are ACCEPTED for this unit (they will show
-     in Print Assumptions), nothing else.  `fz 0` (float_of_int 0) is 0%float by reflexivity.  as_float (VInt (Z.of_nat ..)) is
-     never needed: the int / int comparisons go through the integer branch.
-   * Test the statement with Eval vm_compute FIRST (scratch file /verif/work/gendevc/CapacityScratch*.v, delete it afterwards):
-     ce := fun f args => if f = "__pow__" then Ret (VFloat tol) else if f = "__log2__" then identity on the float, L := fun x => x,
-     k = 1 accessors (4 rows), repeats 1 / 2 / 3 with explicit streams, maxit 0 / 1 / 2 / 5 / 500, process and verbose on and off, an
-     arc-less accessor, a row summing to -4 that is not all -1 (e.g. [-1; -1; -2; 0] -- allowed by the hypotheses), entries -2.
-     If the statement is false as given, add the WEAKEST extra hypothesis and report the counterexample.
-   * Structure the proof: one lemma per statement of the loop body (stage lemmas on a symbolic environment: set / clearbody), a lemma
-     for the column loop, a lemma "one while iteration = one unfolding of Capacity.power_loop", an induction on the model's fuel for
-     the while loop (exec_while_b / while_loop_b of MiniPyCLemmas.v), an induction over the repeats for the outer for loop with the
-     invariant results = map lg (model's res so far), record = ..., "__rng__" = the rest of the stream. *)
+Print Assumptions approximate_capacity_gen.
